@@ -127,6 +127,34 @@ theorem catSpec_err (links : Option LinkFn) :
       simp only [Term.err.injEq] at h
       exact ⟨(i, s), List.mem_cons_self, by rw [ht, h]⟩
 
+/-- with a failing source: everything of the sources in front of the first failing one, what that one
+delivers, and its error -/
+theorem catSpec_split (links : Option LinkFn) :
+    ∀ (srcs : List (Nat × Src)) (e : Nat), (catSpec links srcs).2 = .err e →
+      ∃ pre p post, srcs = pre ++ p :: post ∧ (∀ q, q ∈ pre → q.2.term = .eof) ∧ p.2.term = .err e ∧
+        (catSpec links srcs).1 = delivered links (pre ++ [p])
+  | [], _, h => by cases h
+  | (i, s) :: rest, e, h => by
+    unfold catSpec at h ⊢
+    cases ht : s.term with
+    | eof =>
+      rw [ht] at h
+      obtain ⟨pre, p, post, hsplit, hpre, hp, hout⟩ := catSpec_split links rest e h
+      refine ⟨(i, s) :: pre, p, post, by rw [hsplit]; rfl, ?_, hp, ?_⟩
+      · intro q hq
+        cases hq with
+        | head => exact ht
+        | tail _ hq => exact hpre q hq
+      · simp only [hout]
+        simp [delivered]
+    | err e' =>
+      rw [ht] at h
+      simp only [Term.err.injEq] at h
+      subst h
+      refine ⟨[], (i, s), rest, rfl, ?_, ht, ?_⟩
+      · intro q hq; cases hq
+      · simp [delivered]
+
 /-- with distinct source ids, the records of source `i` among all delivered records are its own, in order -/
 theorem filter_delivered (links : Option LinkFn) :
     ∀ (srcs : List (Nat × Src)), (srcs.map (·.1)).Nodup → ∀ i s, (i, s) ∈ srcs →
